@@ -52,6 +52,17 @@ def d6_family(rng, n):
                   mkrow("ZED", "%d-08-15" % (y2 + 1), "Sell", "", shares=str(2 * q + 7), aps="17.00", cur="CAD")]
             out.append(("zero-net year #%d" % i, {"rows": rz, "init": {}, "features": ["zero_net_year"]},
                         ["%d-12-31" % y2, "%d-02-01" % (y2 + 1), "%d-10-15" % y2]))
+        if i % 5 == 2:
+            # a loss sale declared "not superficial" by the user (0!), carried over next to a re-purchase
+            yz = rng.randint(2015, 2021)
+            b0 = datetime.date(yz, rng.randint(2, 9), rng.randint(1, 25))
+            D_ = lambda k: (b0 + datetime.timedelta(days=k)).isoformat()
+            ro = [mkrow("OVR", D_(-200), "Buy", "", shares="20", aps="30.00", cur="CAD"),
+                  mkrow("OVR", D_(0), "Sell", "", shares="4", aps="25.00", cur="CAD", sfl=rng.choice(["0!", "0"]) if False else "0!"),
+                  mkrow("OVR", D_(5), "Buy", "", shares="3", aps="24.00", cur="CAD"),
+                  mkrow("OVR", D_(20), "Sell", "", shares="2", aps="22.00", cur="CAD"),
+                  mkrow("OVR", D_(300), "Sell", "", shares="5", aps="40.00", cur="CAD")]
+            out.append(("declared zero #%d" % i, {"rows": ro, "init": {}, "features": ["declared_zero"]}, [D_(1), D_(6), D_(0)]))
         if i % 5 == 1:
             # a second non-registered affiliate whose first transaction comes years after the first one's, the
             # first one having a net loss in the year before
